@@ -101,11 +101,114 @@ def closed_by_a_subscriber_mid_chunk(ctx: Ctx) -> None:
                                 res.violation("C08/write-after-close", f"after the close from inside the subscriber the device still received {wrote}", case)
 
 
+def subscriber_raises(ctx: Ctx) -> None:
+    """A subscriber's callback raises while a chunk is being handed over - an ordinary application bug (RuntimeError, KeyError, OSError) or one of the
+    library's OWN exception classes (a callback that forwards the state to a second client which is not connected gets APIConnectionError out of
+    it).  asyncio treats an exception out of data_received as fatal for the transport: the socket is closed.  Whatever the class of the
+    exception, that IS the connection closing: state CLOSED, stop callback run, no timer of the connection armed, the outstanding request ended,
+    nothing delivered or written afterwards.  A socket that is gone under a connection object that still counts as connected is the failure."""
+    import asyncio
+
+    from aioesphomeapi import api_pb2 as pb
+    from aioesphomeapi.core import APIConnectionError, SocketClosedAPIError, TimeoutAPIError
+    from vf.sim.device import DeviceConfig
+    from vf.sim.scenario import Sim  # noqa: PLC0415
+
+    res = ctx.res
+    idx = 0
+    classes = {"RuntimeError": RuntimeError, "KeyError": KeyError, "OSError": OSError, "APIConnectionError": APIConnectionError,
+               "SocketClosedAPIError": SocketClosedAPIError, "TimeoutAPIError": TimeoutAPIError, "asyncio.TimeoutError": asyncio.TimeoutError,
+               "ValueError": ValueError}
+    for framing in ("plain", "noise"):
+        for exc_name in classes:
+            for trailing in ([], ["state", "ping"], ["state", "garbage"]):
+                for pending_request in (False, True):
+                    idx += 1
+                    if not ctx.mine(idx):
+                        continue
+                    with Sim() as sim:
+                        import base64  # noqa: PLC0415
+
+                        psk = bytes(range(32))
+                        cfg = DeviceConfig(noise_psk=psk if framing == "noise" else None)
+                        cfg.handlers["DeviceInfoRequest"] = lambda c, m: None      # never answered: the request stays outstanding
+                        dev = sim.device(cfg)
+                        cli = sim.client(**({"noise_psk": base64.b64encode(psk).decode()} if framing == "noise" else {}))
+                        c0 = sim.call("connect", lambda: cli.connect(on_stop=sim.on_stop_cb(), login=False))
+                        sim.run(until=lambda: c0.done, max_time=sim.clock + 50)
+                        if c0.outcome != "ok":
+                            res.inconclusive.append(f"subscriber_raises: connect failed: {c0.exc!r}")
+                            continue
+                        conn = cli._connection  # noqa: SLF001
+                        view = sim.view(conn)
+                        helper = getattr(conn, "_frame_helper", None)
+                        dconn = dev.conn
+                        got: list[tuple[int, str, bool]] = []
+
+                        def bad(m: Any, sim: Sim = sim, got: list[Any] = got, exc_name: str = exc_name) -> None:
+                            got.append((sim.next_seq(), "raiser", False))
+                            raise classes[exc_name]("Not connected to other-device @ 10.9.9.9" if "API" in exc_name else "application bug")
+
+                        def on_text(m: Any, sim: Sim = sim, got: list[Any] = got, dconn: Any = dconn) -> None:
+                            got.append((sim.next_seq(), "text", dconn.sock.closed))
+
+                        conn.add_message_callback(bad, (pb.SensorStateResponse,))
+                        conn.add_message_callback(on_text, (pb.TextSensorStateResponse,))
+                        req = sim.call("device_info", lambda: cli.device_info()) if pending_request else None
+                        sim.run_for(0.01)
+                        n_rx = len(dconn.received)
+                        dconn.outbox = []
+                        dconn.send_msg(pb.TextSensorStateResponse(key=1, state="before"))
+                        dconn.send_msg(pb.SensorStateResponse(key=5, state=1.5))
+                        for tkind in trailing:
+                            if tkind == "state":
+                                dconn.send_msg(pb.TextSensorStateResponse(key=2, state="behind"))
+                            elif tkind == "ping":
+                                dconn.send_msg(pb.PingRequest())
+                            else:
+                                dconn.send_raw(b"\x42\x42\x42")
+                        out, dconn.outbox = dconn.outbox, None
+                        dconn.deliver_items(out, 0.0)
+                        sim.run_for(1.0)
+                        res.evaluations += 1
+                        res.count("workload/subscriber-raises")
+                        res.count(f"subscriber-raises/{exc_name}/client-socket-closed={not sim.open_sockets()}")
+                        res.sig("subscriber-raises", framing, exc_name, tuple(trailing), pending_request)
+                        case = {"spec": None, "subscriber_raises": {"framing": framing, "exception": exc_name, "trailing": trailing, "request_outstanding": pending_request}}
+                        socket_gone = not sim.open_sockets()
+                        state = conn.connection_state.name
+                        if socket_gone:
+                            if state != "CLOSED":
+                                res.violation("C08/socket-closed-under-live-connection", f"{framing}: a subscriber raised {exc_name}; the client's socket is closed but the "
+                                              f"connection is {state} (is_connected={conn.is_connected})", case, trace=sim.trace(30))
+                            timers = sim.live_timers_owned_by((conn, helper))
+                            if timers:
+                                res.violation("C08/timer-after-close", f"{framing}: a subscriber raised {exc_name}; socket closed, timers of the connection still armed: {timers}",
+                                              case, trace=sim.trace(30))
+                            if req is not None and not req.done:
+                                res.violation("C08/task-blocked-after-close", f"{framing}: a subscriber raised {exc_name}; socket closed, device_info() still pending 1 s later", case,
+                                              trace=sim.trace(30))
+                            if not view.on_stop:
+                                res.violation("C08/closed-without-stop-callback", f"{framing}: a subscriber raised {exc_name}; socket closed, the stop hook never ran", case,
+                                              trace=sim.trace(30))
+                            late = [g for g in got if g[1] == "text" and g[2]]
+                            if late:
+                                res.violation("C08/delivery-after-close", f"{framing}: delivered after the socket was closed: {late}", case, trace=sim.trace(30))
+                        elif state == "CLOSED":
+                            res.violation("C08/socket-open-after-close", f"{framing}: a subscriber raised {exc_name}; connection CLOSED but its socket is still open", case,
+                                          trace=sim.trace(30))
+                        if req is not None and not req.done:
+                            sim.cancel(req)
+                        d = sim.call("bye", lambda: cli.disconnect(force=True))
+                        sim.run(until=lambda: d.done, max_time=sim.clock + 5)
+
+
 def shard(ctx: Ctx) -> None:
     from vf.sim import device as _device_fw  # noqa: PLC0415
 
     _device_fw.ROTATE_FIRMWARE = True    # the firmware flavour of default devices rotates (hello without a name, API 1.2 / 1.8 / 1.12, deep sleep)
     closed_by_a_subscriber_mid_chunk(ctx)
+    subscriber_raises(ctx)
     sweep.standard_sweep(ctx, PROP)
     sweep.same_turn_pairs_sweep(ctx, PROP)
     sweep.stalled_connect_sweep(ctx, PROP)
@@ -114,6 +217,7 @@ def shard(ctx: Ctx) -> None:
     sweep.keepalive_values_sweep(ctx, PROP)
     sweep.hello_content_sweep(ctx, PROP)
     sweep.abandoned_disconnect_sweep(ctx, PROP)
+    sweep.crossing_requests_sweep(ctx, PROP)
     sweep.trailing_frames_sweep(ctx, PROP)
     sweep.raising_on_stop_sweep(ctx, PROP)
     sweep.reconnect_in_on_stop_sweep(ctx, PROP)
